@@ -24,6 +24,9 @@ ASSUMPTIONS = [
 TOOL = 3
 
 
+REUSED = {}
+
+
 class StepBudget(BaseException):
     pass
 
@@ -115,6 +118,44 @@ def check_input(acc, sch, w, mod, mon, tname, endian, fam, desc, data, cost, wit
         wit.update(kw)
         return wit
 
+    # the same input into a long-lived message of the type (whatever earlier inputs, accepted or refused, left in it):
+    # no other exception type either, and when both decodes return the used message has to encode as well
+    key = (id(mod), tname)
+    used = REUSED.get(key)
+    if used is None:
+        used = REUSED[key] = cls()
+    mon.count = 0
+    try:
+        used.decode(data, endian)
+        uerr = None
+    except StepBudget:
+        uerr = None
+        REUSED.pop(key, None)
+    except Exception as e:  # noqa
+        uerr = e
+    mon.count = 0
+    if uerr is not None and not isinstance(uerr, prophy.ProphyError):
+        acc.violation(PROP, 'decode-into-a-used-message-raises:%s' % type(uerr).__name__,
+                      witness(error='%s: %s' % (type(uerr).__name__, uerr)))
+        REUSED.pop(key, None)
+        return
+    if uerr is None and err is None:
+        acc.count('decodes_into_a_used_message_returned')
+        try:
+            uenc = used.encode(endian)
+            same = uenc == m.encode(endian)
+            acc.count('used_message_encodes_like_the_fresh_one' if same else 'used_message_encodes_differently(observation)')
+        except Exception as e:  # noqa
+            try:
+                m.encode(endian)
+                fresh_ok = True
+            except Exception:  # noqa
+                fresh_ok = False
+            if fresh_ok:
+                acc.violation(PROP, 'used-message-cannot-be-encoded-after-a-decode-that-returned:%s' % type(e).__name__,
+                              witness(error='%s: %s' % (type(e).__name__, e)))
+                REUSED.pop(key, None)
+                return
     if isinstance(err, StepBudget) or steps > budget_steps:
         acc.violation(PROP, 'step-budget-exceeded', witness(steps=steps, budget=budget_steps))
         return
